@@ -9,6 +9,7 @@ def endsConn (sd : Bool) : Item → Bool
       (!rqSkip rq && (match org with | .ok _ cl => cl | .trunc _ => true | .fail => false))
   | .connectMitm _ rq rs => decide (rq = .hijack) || decide (rs = .hijack)
   | .connectBlind ok rq rs => decide (rq = .hijack) || decide (rs = .hijack) || ok
+  | .connectMitmFail rq rs => decide (rq = .hijack) || decide (rs = .hijack)
 
 def Next.isAgain : Next → Bool | .again _ => true | _ => false
 @[simp] theorem isAgain_again (s : St) : (Next.again s).isAgain = true := rfl
